@@ -73,7 +73,15 @@ func (w *World) NewUDPClient(name string, ip net.IP, port int, li int, user stri
 // NewTCPClient creates a raw client with a TCP control connection to TCP listener li.
 func (w *World) NewTCPClient(name string, ip net.IP, port int, li int, user string) (*RawClient, error) {
 	l := w.ServerTCP[li]
-	conn, err := w.Net.DialTCP(ip, port, l.TCPAddr())
+	to := l.TCPAddr()
+	if to.IP.IsUnspecified() {
+		// a wildcard listener is reached at one of the host's concrete addresses
+		to = &net.TCPAddr{IP: ServerIP4, Port: to.Port}
+		if ip.To4() == nil {
+			to.IP = ServerIP6
+		}
+	}
+	conn, err := w.Net.DialTCP(ip, port, to)
 	if err != nil {
 		return nil, err
 	}
